@@ -127,7 +127,7 @@ func verifBackendToTunnel(raddr *net.UDPAddr, buf []byte, i int) bool {
 
 //verif:contract ~/pkg/proto/udp.Forwarder$1
 //verif:props C03
-//verif:kinds loop,post,pre
+//verif:kinds loop,post,pre,lock
 func verif_Forwarder_replies(raddr *net.UDPAddr, udpConn *net.UDPConn) {
 	verif.Requires(raddr != nil && udpConn != nil, "called_by_the_forwarder")
 	verif.ResetEvents()
@@ -174,7 +174,7 @@ func verifTunnelToBackend(m *msg.UDPPacket) bool {
 //
 //verif:contract ~/pkg/proto/udp.Forwarder$2
 //verif:props C03
-//verif:kinds loop,post,pre
+//verif:kinds loop,post,pre,lock
 func verif_Forwarder_requests() {
 	verif.ResetEvents()
 	verif.CallTarget()
